@@ -41,6 +41,7 @@ def make_case(rng, i, tier):
         case["length"] = rng.randint(1, 80)
         case["p_note"] = rng.choice([0.3, 0.5, 0.7])
         case["rest_heavy"] = rng.random() < 0.35     # rests overshooting the bar capacity before a bar token
+        case["grammar"] = rng.random() < 0.4
     return case
 
 
@@ -77,7 +78,40 @@ def run(case, ctx):
         other = [t for t in vocab if "pit" not in t]
         rests = [t for t in other if t.startswith("rst")]
         pick_other = (lambda: rnd.choice(rests) if rnd.random() < 0.6 else rnd.choice(other)) if case.get("rest_heavy") else (lambda: rnd.choice(other))
-        stream = [rnd.choice(notes_t) if rnd.random() < case["p_note"] else pick_other() for _ in range(case["length"])]
+        if case.get("grammar"):
+            # streams assembled from segments aimed at the clock's corner cases: rests filling the current bar exactly,
+            # partly, or overshooting it; signature tokens on / off the bar line; bar tokens; notes
+            tsgs = [t for t in other if t.startswith("tsg")]
+            steps = sorted(int(t.split("_")[1]) for t in rests)
+            stream = []
+            cap, filled = 96, 0
+            while len(stream) < case["length"]:
+                seg = rnd.choice(["fill_exact", "fill_exact", "partial", "overshoot", "tsg", "tsg", "bar", "bar", "note", "note", "misc"])
+                if seg in ("fill_exact", "partial", "overshoot"):
+                    target = {"fill_exact": cap - filled, "partial": rnd.randrange(0, max(1, cap - filled)), "overshoot": cap - filled + rnd.choice(steps)}[seg]
+                    while target > 0:
+                        c = [x for x in steps if x <= target]
+                        if not c:
+                            break
+                        x = rnd.choice(c[-3:])
+                        stream.append(f"rst_{x:02}")
+                        target -= x
+                        filled += x
+                elif seg == "tsg":
+                    t = rnd.choice(tsgs)
+                    stream.append(t)
+                    if filled == 0:
+                        cap = 96 * int(t.split("_")[1]) // 8
+                elif seg == "bar":
+                    stream.append("bar")
+                    filled = 0
+                elif seg == "note":
+                    stream += [rnd.choice(notes_t) for _ in range(rnd.randint(1, 3))]
+                else:
+                    stream.append(rnd.choice(other))
+            stream = stream[:case["length"] + 10]
+        else:
+            stream = [rnd.choice(notes_t) if rnd.random() < case["p_note"] else pick_other() for _ in range(case["length"])]
         LOG.n("c19.random_streams")
     if len(stream) > 160:
         stream = stream[:160]
@@ -147,6 +181,8 @@ def run(case, ctx):
                 ticks = 0
             elif t.startswith("tsg") and filled:
                 LOG.n("c19.midbar_signature_token")
+                if ticks > 0 and ticks % 24 == 0 and ticks in (48, 72, 96, 120, 144, 192):
+                    LOG.n("c19.signature_token_after_exactly_filled_bar(candidate)")
     return {"nontrivial": interesting, "fails": fails[:5],
             "shape": (case["kind"], "".join("1" if x else "0" for x in cfg["flags"]), case["impute"], min(n // 20, 6)),
             "observed": {"tokens": n, "stream_head": stream[:10], "times_head": info["info_time"][:10]}}
